@@ -173,6 +173,7 @@ class RecLearner:
             C = _rows(context, n)
             P = list(probability) if isinstance(probability, (list, tuple)) else [probability] * n
             for i in range(n):
+                self._info(self._entry(self.n_pred).get("il"))
                 self.calls.append({"m": "learn", "ctx": canon(C[i]), "a": canon(action[i]), "r": canon(reward[i]),
                                    "p": canon(P[i]), "kw": canon({k: v[i] for k, v in kwargs.items()}),
                                    "ctx_id": id(C[i]), "b": self.n_bcall})
